@@ -763,6 +763,16 @@ def run_c17(chk):
                 j = next((j for j in range(min(len(base), len(erased))) if base[j] != erased[j]), min(len(base), len(erased)))
                 chk.fail("flags-change-behaviour", f"warnings={cfg[0]} tracing={cfg[1]}: turn {j} differs from the plain run: "
                          f"{(erased[j][:3] if j < len(erased) else None)!r:.200} vs {(base[j][:3] if j < len(base) else None)!r:.200}", session_replay(s))
+        # the two options are independent: the warning records are the same with and without tracing, the trace records
+        # the same with and without warnings (per turn, in order)
+        def recs(cfg, kind):
+            return [tuple(o for o in row.outputs() if o.startswith(kind)) for row in runs[cfg][2] if row.kind == "row"]
+        if recs((True, False), "W") != recs((True, True), "W"):
+            chk.fail("warnings-depend-on-tracing", f"warning records differ between tracing off and on: "
+                     f"{[x for x in recs((True, False), 'W') if x][:4]!r:.200} vs {[x for x in recs((True, True), 'W') if x][:4]!r:.200}",
+                     session_replay(runs[(True, True)][0]))
+        if recs((False, True), "T") != recs((True, True), "T"):
+            chk.fail("trace-depends-on-warnings", "trace records differ between warnings off and on", session_replay(runs[(True, True)][0]))
         # TRACE / NOTRACE typed in the middle of a session (at a break, before CONT) change nothing either: same
         # transcript as the session with the same breaks and no command
         nturns = len(runs[(False, False)][2])
